@@ -555,6 +555,12 @@ FormatterToXML::accumNameAsChar(XalanDOMChar    ch)
 {
     if (ch > m_maxCharacter)
     {
+        if (getOutputFormat() == OUTPUT_METHOD_XML)
+        {
+            // A name cannot contain a character reference.
+            throwUnrepresentableCharacterException(ch);
+        }
+
         m_charBuf[m_pos++] = XalanUnicode::charQuestionMark;
     }
     else
@@ -577,6 +583,12 @@ FormatterToXML::accumNameAsCharDirect(XalanDOMChar  ch)
 
     if (ch > m_maxCharacter)
     {
+        if (getOutputFormat() == OUTPUT_METHOD_XML)
+        {
+            // A name cannot contain a character reference.
+            throwUnrepresentableCharacterException(ch);
+        }
+
         m_stream->write(XalanDOMChar(XalanUnicode::charQuestionMark));
     }
     else
@@ -828,6 +840,17 @@ FormatterToXML::throwInvalidCharacterException(
     using xercesc::SAXException;
 
     throw SAXException(theMessage.c_str(), &theManager);
+}
+
+void
+FormatterToXML::throwUnrepresentableCharacterException(XalanUnicodeChar     ch)
+{
+    XalanDOMString  theBuffer(getMemoryManager());
+
+    throw XalanTranscodingServices::UnrepresentableCharacterException(
+                ch,
+                m_encoding,
+                theBuffer);
 }
 
 void
@@ -1413,7 +1436,82 @@ FormatterToXML::writeAttrString(
 void
 FormatterToXML::accumCommentData(const XalanDOMChar*    data)
 {
-    accumContent(data);
+    accumMarkupData(data, length(data));
+}
+
+
+
+void
+FormatterToXML::accumMarkupData(
+            const XalanDOMChar*     theData,
+            size_type               theLength)
+{
+    // Character references are not recognized in a comment or in a
+    // processing instruction: what FormatterToXMLUnicode refuses
+    // there is refused here.
+    size_type   firstIndex = 0;
+
+    for (size_type i = 0; i <= theLength; ++i)
+    {
+        if (i == theLength || XalanUnicode::charLF == theData[i])
+        {
+            accumMarkupRun(theData + firstIndex, i - firstIndex);
+
+            if (i < theLength)
+            {
+                accumContent(theData[i]);
+            }
+
+            firstIndex = i + 1;
+        }
+        else if (isReferenceOnly(theData[i]) == true)
+        {
+            // A parser would read a line feed (CR; XML 1.1: NEL, LSEP)
+            // or reject the character (control characters).
+            throwInvalidCharacterException(theData[i], getMemoryManager());
+        }
+    }
+}
+
+
+
+void
+FormatterToXML::accumMarkupRun(
+            const XalanDOMChar*     theData,
+            size_type               theLength)
+{
+    for (size_type i = 0; i < theLength; ++i)
+    {
+        const XalanDOMChar  ch = theData[i];
+
+        if (0xd800 <= ch && ch < 0xe000)
+        {
+            if (ch >= 0xdc00 || i + 1 >= theLength)
+            {
+                throwInvalidUTF16SurrogateException(ch, getMemoryManager());
+            }
+            else if (!(0xdc00 <= theData[i + 1] && theData[i + 1] < 0xe000))
+            {
+                throwInvalidUTF16SurrogateException(ch, theData[i + 1], getMemoryManager());
+            }
+            else if (ch > m_maxCharacter)
+            {
+                throwUnrepresentableCharacterException(
+                    ((XalanUnicodeChar(ch) - 0xd800u) << 10) + theData[i + 1] - 0xdc00u + 0x00010000u);
+            }
+
+            accumContent(ch);
+            accumContent(theData[++i]);
+        }
+        else if (ch > m_maxCharacter)
+        {
+            throwUnrepresentableCharacterException(ch);
+        }
+        else
+        {
+            accumContent(ch);
+        }
+    }
 }
 
 
@@ -1433,17 +1531,25 @@ FormatterToXML::isReferenceInCDATA(XalanDOMChar     ch) const
     }
     else
     {
-        // A parser reads a literal CR (XML 1.1: also NEL and LSEP) as a
-        // line feed, and the control characters are either no characters
-        // at all (XML 1.0) or allowed as references only (XML 1.1).
-        return ch == XalanUnicode::charCR ||
-               (ch < 0x20 &&
-                ch != XalanUnicode::charHTab &&
-                ch != XalanUnicode::charLF) ||
-               (m_isXML1_1 == true &&
-                (ch == XalanUnicode::charLSEP ||
-                 (0x7F <= ch && ch <= 0x9F)));
+        return isReferenceOnly(ch);
     }
+}
+
+
+
+bool
+FormatterToXML::isReferenceOnly(XalanDOMChar    ch) const
+{
+    // A parser reads a literal CR (XML 1.1: also NEL and LSEP) as a
+    // line feed, and the control characters are either no characters
+    // at all (XML 1.0) or allowed as references only (XML 1.1).
+    return ch == XalanUnicode::charCR ||
+           (ch < 0x20 &&
+            ch != XalanUnicode::charHTab &&
+            ch != XalanUnicode::charLF) ||
+           (m_isXML1_1 == true &&
+            (ch == XalanUnicode::charLSEP ||
+             (0x7F <= ch && ch <= 0x9F)));
 }
 
 
@@ -1907,10 +2013,7 @@ FormatterToXML::accumNormalizedPIData(
             const XalanDOMChar*     theData,
             size_type               theLength)
 {
-    for (size_type i = 0; i < theLength; ++i)
-    {
-        accumContent(theData[i]);
-    }
+    accumMarkupData(theData, theLength);
 }
 
 
